@@ -29,9 +29,9 @@ def descriptor_text(extents, *, cid="fffffffe", parent_cid="ffffffff", create_ty
 
 
 def hosted_header(capacity, grain, desc_off, desc_size, gtes, rgd_off, gd_off, overhead, flags, compress=0, magic=b"KDMV",
-                  version=1):
+                  version=1, unclean=0):
     h = struct.pack("<4sIIQQQQIQQQB4sH", magic, version, flags, capacity, grain, desc_off, desc_size, gtes, rgd_off, gd_off,
-                    overhead, 0, b"\n \r\n", compress)
+                    overhead, unclean, b"\n \r\n", compress)
     return h.ljust(512, b"\0")
 
 
@@ -68,7 +68,7 @@ def _grain_blob(q, grain_bytes, *, compressed, lba, lba_value=0, level=6, noise=
 
 def build_hosted(ents, present, *, capacity, grain, gtes, footer=False, compressed=False, lba=True, file_id=0, desc=None,
                  slot_mult=1, level=6, rgd=False, max_pos=None, name=None, magic=b"KDMV", version=1, zero_gte=True,
-                 tight=False, noise=None, data_base_min=0):
+                 tight=False, noise=None, data_base_min=0, rgd_off=0, unclean=0):
     """ents: per real grain ("U"|"Z"|"D", q); present: per real grain table bool.
     capacity, grain in sectors.  data_base_min: first sector of the grain data area is at least this (sector numbers
     beyond 2^31; with a footer the tables follow the data, so directory entries are that large as well).
@@ -140,13 +140,13 @@ def build_hosted(ents, present, *, capacity, grain, gtes, footer=False, compress
         ext.append((data_base * SECTOR, top * slot * SECTOR, "pat", file_id))
     overhead = data_base
     if footer:
-        hdr = hosted_header(capacity, grain, desc_off, desc_size, gtes, 0, GD_AT_END, overhead, flags, 1 if compressed else 0, magic, version)
-        ftr = hosted_header(capacity, grain, desc_off, desc_size, gtes, 0, gd_off, overhead, flags, 1 if compressed else 0, magic, version)
+        hdr = hosted_header(capacity, grain, desc_off, desc_size, gtes, rgd_off, GD_AT_END, overhead, flags, 1 if compressed else 0, magic, version, unclean)
+        ftr = hosted_header(capacity, grain, desc_off, desc_size, gtes, rgd_off, gd_off, overhead, flags, 1 if compressed else 0, magic, version, unclean)
         ext.append((0, 512, "bytes", hdr))
         ext.append((end * SECTOR, 512, "bytes", ftr))
         fsize = (end + 2) * SECTOR  # footer sector + end-of-stream marker sector
     else:
-        hdr = hosted_header(capacity, grain, desc_off, desc_size, gtes, 0, gd_off, overhead, flags, 1 if compressed else 0, magic, version)
+        hdr = hosted_header(capacity, grain, desc_off, desc_size, gtes, rgd_off, gd_off, overhead, flags, 1 if compressed else 0, magic, version, unclean)
         ext.append((0, 512, "bytes", hdr))
         fsize = max(end * SECTOR, max(e[0] + e[1] for e in ext))
     vf = VirtualFile(fsize, ext, fid=file_id, name=name)
